@@ -230,6 +230,12 @@ def check(run):
     run_cases(run, worker, cases)
     from props import C05_tree
     C05_tree.check(run)
+    # which entry of a per-bond / per-node limit applies to which bond, decided for all tensor values in kernel-stub mode: chain two-site update and tree
+    # compress / update_2site with "limit 1 everywhere except on the bond being cut" and with limits equal to the current bond dimensions
+    from vk.symx.harness import guarded
+    from props import C04_kernel, C11_sym
+    guarded(run, C04_kernel.prove, only_updates=True)
+    guarded(run, C11_sym.prove, only=("limit", "per_bond"))
     run.rule = ("chain states (random per sector incl. complex; Bell-pair products with exactly degenerate singular values) x both canonical forms x "
                 "{fixed M=1,2,3,64, non-uniform per-bond limits, threshold 0.5/0.1/1e-3, both}; contracts: bond limit, no growth, norm, "
                 "Eckart-Young lower and TT-SVD upper bound from numpy SVD of the dense vector at every cut, kept counts at the first truncated bond, "
